@@ -80,6 +80,12 @@ def Segment.secTtLocal (cur next : Segment R) (sf gf : R) : R := lerp (Segment.s
 /-- `max_slab_length` / `max_fault_length`: total length, interpolated between the two sections -/
 def sectionsMaxLen (secCur secNext : List (Segment R)) (sf : R) : R := lerp (sectionLength secCur) (sectionLength secNext) sf
 
+/-- the hit an accepted point gets: the geometry result, segment `pd.segment` of the two adjacent sections, and the
+`Features::AdditionalParameters{max_slab_length, thickness_local}` the membership test computed on the way -/
+def hitOf (pd : PlaneDist R) (secCur secNext : List (Segment R)) (cur next : Segment R) : LineHit R :=
+  ⟨pd, cur, next, ⟨sectionsMaxLen secCur secNext pd.fractionOfSection,
+                   Segment.secThLocal cur next pd.fractionOfSection pd.fractionOfSegment⟩⟩
+
 /-- the membership decision of `coversBody` once the geometry result `pd` and the data of the two adjacent sections are known -/
 def coversDecide (isFault : Bool) (pd : PlaneDist R) (secCur secNext : List (Segment R)) (cur next : Segment R) :
     Option (LineHit R) :=
@@ -97,7 +103,7 @@ def coversDecide (isFault : Bool) (pd : PlaneDist R) (secCur secNext : List (Seg
       let inside :=
         if isFault then decide (fabs d ≤ thLocal * (0.5 : R)) && decide (a > 0) && decide (a ≤ maxLen)
         else decide (d ≥ ttLocal) && decide (d ≤ thLocal) && decide (a ≥ 0) && decide (a ≤ maxLen)
-      if inside then some ⟨pd, cur, next⟩ else none
+      if inside then some ⟨pd, cur, next, ⟨maxLen, thLocal⟩⟩ else none
 
 /-- everything `coversBody` does after the geometry: the sentinel test, reading sections `pd.sectionIdx` and `pd.sectionIdx + 1`
 (and in them segment `pd.segment`), and the decision -/
@@ -146,7 +152,8 @@ theorem coversBody_eq (f : LineFeature R) (ctx : Ctx R) (q : Query R) :
 
 /-- an accepted point carries the geometry result and the two segments it was decided with -/
 theorem coversDecide_some (isFault : Bool) (pd : PlaneDist R) (secCur secNext : List (Segment R)) (cur next : Segment R)
-    (hit : LineHit R) (h : coversDecide isFault pd secCur secNext cur next = some hit) : hit = ⟨pd, cur, next⟩ := by
+    (hit : LineHit R) (h : coversDecide isFault pd secCur secNext cur next = some hit) :
+    hit = hitOf pd secCur secNext cur next := by
   unfold coversDecide at h
   simp only at h
   split at h
@@ -160,7 +167,8 @@ theorem readAndDecide_some (sections : List (List (Segment R))) (isFault : Bool)
     (h : readAndDecide sections isFault pd = .ok (some hit)) :
     ∃ secCur secNext cur next, idx sections pd.sectionIdx = .ok secCur ∧ idx sections (pd.sectionIdx + 1) = .ok secNext ∧
       idx secCur pd.segment = .ok cur ∧ idx secNext pd.segment = .ok next ∧
-      coversDecide isFault pd secCur secNext cur next = some hit ∧ hit = ⟨pd, cur, next⟩ := by
+      coversDecide isFault pd secCur secNext cur next = some hit ∧
+      hit = hitOf pd secCur secNext cur next := by
   unfold readAndDecide at h
   split at h
   · exact absurd h (by simp)
@@ -180,8 +188,9 @@ theorem readAndDecide_some (sections : List (List (Segment R))) (isFault : Bool)
 /-! ### the named per-section quantities of `linePaintAt` -/
 
 /-- what the temperature models of one section's segment make of `old` -/
-def sectionTemp (isFault : Bool) (ctx : Ctx R) (q : Query R) (pd : PlaneDist R) (seg : Segment R) (old : R) : R :=
-  seg.temps.foldl (fun t m => m.get isFault ctx q.depth q.gravityNorm pd t) old
+def sectionTemp (isFault : Bool) (ctx : Ctx R) (q : Query R) (pd : PlaneDist R) (ap : AdditionalParams R) (seg : Segment R) (old : R) :
+    Except Err R :=
+  seg.temps.foldlM (fun t m => m.get isFault ctx q.depth q.gravityNorm pd ap t) old
 /-- what the composition models of one section's segment make of `old` (composition number `n`) -/
 def sectionComp (isFault : Bool) (pd : PlaneDist R) (n : Nat) (seg : Segment R) (old : R) : Except Err R :=
   seg.comps.foldlM (fun c m => m.get isFault pd n c) old
@@ -194,13 +203,34 @@ def sectionVel (isFault : Bool) (pd : PlaneDist R) (seg : Segment R) (v0 : P3 R)
 
 /-- temperature (code 1): the value written is `lerp` of the two sections' temperatures -/
 theorem linePaintAt_temperature (f : LineFeature R) (ctx : Ctx R) (q : Query R) (h : LineHit R) (p : Req) (e : Nat) (out : List R)
-    (old : R) (hcode : p.code = 1) (hold : idx out e = .ok old) :
-    linePaintAt f ctx q h p e out =
-      .ok (writeBlock e [lerp (sectionTemp f.isFault ctx q h.pd h.cur old) (sectionTemp f.isFault ctx q h.pd h.next old)
-                           h.pd.fractionOfSection] out) := by
+    (old tc tn : R) (hcode : p.code = 1) (hold : idx out e = .ok old)
+    (hc : sectionTemp f.isFault ctx q h.pd h.ap h.cur old = .ok tc) (hn : sectionTemp f.isFault ctx q h.pd h.ap h.next old = .ok tn) :
+    linePaintAt f ctx q h p e out = .ok (writeBlock e [lerp tc tn h.pd.fractionOfSection] out) := by
+  unfold sectionTemp at hc hn
   unfold linePaintAt
-  simp only [hcode, hold, bind, Except.bind, pure, Except.pure]
+  simp only [hcode, hold, hc, hn, bind, Except.bind, pure, Except.pure]
   rfl
+
+/-- models of the kinds shared by slab and fault (`SegTemp.basic`) cannot throw: their monadic fold is the plain left fold of `LineTemp.get` -/
+theorem foldlM_basic (isFault : Bool) (ctx : Ctx R) (q : Query R) (pd : PlaneDist R) (ap : AdditionalParams R)
+    (ms : List (LineTemp R)) (old : R) :
+    (ms.map SegTemp.basic).foldlM (fun t m => m.get isFault ctx q.depth q.gravityNorm pd ap t) old =
+      (.ok (ms.foldl (fun t m => m.get isFault ctx q.depth q.gravityNorm pd t) old) : Except Err R) := by
+  induction ms generalizing old with
+  | nil => rfl
+  | cons m ms ih =>
+    rw [List.map_cons, List.foldlM_cons, List.foldl_cons]
+    exact ih _
+
+/-- a segment whose temperature models are all of the kinds shared by slab and fault: the section's temperature is the plain left
+fold of `LineTemp.get` -/
+theorem sectionTemp_basic (isFault : Bool) (ctx : Ctx R) (q : Query R) (pd : PlaneDist R) (ap : AdditionalParams R) (seg : Segment R)
+    (ms : List (LineTemp R)) (hms : seg.temps = ms.map SegTemp.basic) (old : R) :
+    sectionTemp isFault ctx q pd ap seg old =
+      .ok (ms.foldl (fun t m => m.get isFault ctx q.depth q.gravityNorm pd t) old) := by
+  unfold sectionTemp
+  rw [hms]
+  exact foldlM_basic isFault ctx q pd ap ms old
 
 /-- composition (code 2): the value written is `lerp` of the two sections' compositions -/
 theorem linePaintAt_composition (f : LineFeature R) (ctx : Ctx R) (q : Query R) (h : LineHit R) (p : Req) (e : Nat) (out : List R)
